@@ -172,8 +172,16 @@ fn edge_list(faces: &[[u32; 3]]) -> Vec<(u32, u32)> {
 }
 
 fn planar(rng: &mut Rng) {
-    let d = planar_disk(rng);
-    let pose: Iso3 = gen::iso3(rng, 30.0);
+    let mut d = planar_disk(rng);
+    // the same disks at other sizes: a feature of a few micrometres modelled in metres, a part of several metres in
+    // millimetres — flattening is scale-covariant, nothing in it may compare a length or an area with a fixed number
+    let f = if rng.chance(0.35) { *rng.pick(&[1e-6, 1e-3, 1e3]) } else { 1.0 };
+    if f != 1.0 {
+        for p in d.pts.iter_mut() {
+            *p = Point2::from(p.coords * f);
+        }
+    }
+    let pose: Iso3 = if f == 1.0 { gen::iso3(rng, 30.0) } else { let t = gen::iso3(rng, 30.0); Iso3::from_parts((t.translation.vector * f).into(), t.rotation) };
     let flip = rng.chance(0.3); // seen from below: the winding is clockwise in its own plane's +z
     let v3: Vec<Point3> = d.pts.iter().map(|p| pose * Point3::new(p.x, if flip { -p.y } else { p.y }, 0.0)).collect();
     let mesh = Mesh::new(v3.clone(), d.faces.clone(), false);
@@ -221,7 +229,7 @@ fn planar(rng: &mut Rng) {
     if !o.0.is_empty() {
         emit("flatten.accepts", &accept_tokens(&mesh), Tok::new().b(true), &Verdict::new());
     }
-    if d.pts.len() <= 40 && !o.0.is_empty() {
+    if d.pts.len() <= 40 && !o.0.is_empty() && f == 1.0 {
         emit(op, &i, &o, &v);
     } else {
         emit_oracle_only(op, &Tok::new(), &Tok::new(), &v);
